@@ -4,6 +4,7 @@ package symgo
 // conversions (encoding/json, sigs.k8s.io/json, sigs.k8s.io/yaml on blobs, DefaultUnstructuredConverter).
 
 import (
+	"go/token"
 	stdjson "encoding/json"
 	"fmt"
 	"go/types"
@@ -794,6 +795,16 @@ func registerJSONIntrinsics(e *Engine) {
 		if m, ok := src.(*gomap); ok && m != nil {
 			if sz, ok := i.jsonSizes[m]; ok {
 				b.size = sz
+			}
+		}
+		if typeKey(v.t) == "k8s.io/apimachinery/pkg/apis/meta/v1/unstructured.Unstructured" {
+			// a non-addressable Unstructured *value* does not reach its pointer-receiver MarshalJSON: encoding/json
+			// encodes the struct, {"Object":{...}}
+			w := newMap()
+			w.set("Object", iface{b.t, b.raw})
+			b.t, b.raw = i.tMapStringAny(), w
+			if b.size != nil {
+				b.size = i.binop(token.ADD, tInt64, b.size, int64(len(`{"Object":}`)))
 			}
 		}
 		return tuple{b, iface{}}
